@@ -154,7 +154,8 @@ class Answer:
     def __init__(self, values):
         self.values = values
     def match(self, args):
-        return unify_arrays(args, self.values)
+        # every use of a fact works on its own copy of the fact's variables
+        return unify_arrays(args, copy_terms(self.values))
     def __str__(self):
         return f'Answer({[to_python(x) for x in self.values]})'
 
@@ -195,6 +196,22 @@ def get_value(v):
     if isinstance(v, IUnifiable):
         return v.get_value()
     return v
+
+def _copy_term(term, mapping):
+    term = get_value(term)
+    if isinstance(term, Variable):
+        if term not in mapping:
+            mapping[term] = Variable()
+        return mapping[term]
+    if isinstance(term, Functor):
+        return Functor(term._name, [_copy_term(a, mapping) for a in term._args])
+    return term
+
+def copy_terms(terms):
+    """Return a copy of the list of terms with their current values, in which every unbound
+    variable is replaced by a new variable (the same one for each of its occurrences)."""
+    mapping = {}
+    return [_copy_term(t, mapping) for t in terms]
 
 def to_python(v):
     """Return v as a Python data structure."""
@@ -507,7 +524,7 @@ class YP(object):
         '''insert name(values) in the set of facts. If append is False, insert the
         fact at the beginning, otherwise at the end.'''
         clauses = self._clauses(name.name(), len(values))
-        answer = Answer([get_value(v) for v in values])
+        answer = Answer(copy_terms(values))
         if append:
             clauses = clauses + [answer]
         else:
